@@ -26,7 +26,8 @@ ASSUMPTIONS = [
 ]
 SIZES = {"quick": 1500, "thorough": 10000}
 
-DEPS = ["a.z", "a.b.x", "a.b.y", "a.param", "a.b.param", "c.x", "c.y", "c.param", "a", "c"]     # the last two: the root parameters themselves
+DEPS = ["a.z", "a.b.x", "a.b.y", "a.param", "a.b.param", "c.x", "c.y", "c.param", "a", "c",     # "a", "c": the root parameters themselves
+        "a.b"]                                                                                  # the sub-object parameter of the mid-level object
 UNRES = "<unresolved>"
 
 _v = st.integers(0, 2)
@@ -63,9 +64,13 @@ def _case(draw):
         # fault motif: the (single) dependent method raises while it handles the replacement of the mid-level object of a
         # depth-2 path; afterwards the object attached now and the detached one are both assigned
         methods = [sorted(set(draw(st.sets(st.sampled_from(DEPS[:5]), max_size=1))) | {"a.b.x"})]
+        if draw(st.booleans()):
+            # ... and a second method reaches through the same objects: it does not raise and must follow the replacement too
+            methods.append(sorted(set(draw(st.sets(st.sampled_from(DEPS[:5]), max_size=1))) | {draw(st.sampled_from(["a.b.x", "a.b.y"]))}))
         l0, l1 = draw(st.sampled_from([(0, 1), (1, 2), (2, 3)]))
         forced = {"init_a": 0, "mid_leaf0": l0, "raise": [0, 1],
-                  "ops": [["attach_leaf", 0, l1], ["set_leaf", l1, "x", draw(_v), "attr"], ["set_leaf", l0, "x", draw(_v), "attr"]]}
+                  "ops": [["attach_leaf", 0, l1], ["set_leaf", l1, "x", draw(_v), "attr"], ["set_leaf", l0, "x", draw(_v), "attr"],
+                          ["set_leaf", l1, "y", draw(_v), "attr"], ["set_leaf", l0, "y", draw(_v), "attr"]]}
     out = {
         "methods": methods,
         "leaf_vals": draw(st.lists(st.tuples(_v, _v), min_size=4, max_size=4)),
@@ -82,6 +87,9 @@ def _case(draw):
         "parents": parents,
         "sub_method": sub_method,
         "init_a1": draw(st.sampled_from([-1, 0, 1, 2])), "init_c1": draw(st.sampled_from([-1, 0, 1, 2, 3])),
+        # the sub-objects are attached by an on_init method of the parent itself (declared before / after the dependent methods)
+        "on_init_attach": draw(st.one_of(st.none(), st.none(), st.none(), st.fixed_dictionaries({
+            "a": st.integers(-1, 2), "c": st.integers(-1, 3), "position": st.sampled_from(["first", "last"])}))),
     }
     if forced:
         out["init_a"] = forced["init_a"]
@@ -112,9 +120,24 @@ def execute(case):
     ns = {"a": param.ClassSelector(class_=Mid, default=None), "c": param.ClassSelector(class_=Leaf, default=None)}
     calls = []          # (parent index, method index)
 
+    oi = case.get("on_init_attach")
+
+    def _build(self):
+        if not self.__dict__.get("_built"):
+            self.__dict__["_built"] = True
+            if oi["a"] >= 0:
+                self.a = mids[oi["a"]]
+            if oi["c"] >= 0:
+                self.c = leaves[oi["c"]]
+    if oi:
+        ns["kind"] = param.Integer(0)
+        res.label("subobjects_attached_by_on_init_method:" + oi["position"])
+        if oi["position"] == "first":
+            ns["_build"] = param.depends("kind", watch=True, on_init=True)(_build)
+
     def mk(i):
         def m(self):
-            calls.append((self._pidx, i))
+            calls.append((getattr(self, "_pidx", -1), i))
             ncalls[i] = ncalls.get(i, 0) + 1
             if roc and roc[0] == i and ncalls[i] == roc[1] and armed[0]:
                 raise _Boom(f"m{i} call {ncalls[i]}")
@@ -122,6 +145,8 @@ def execute(case):
         return m
     for i, deps in enumerate(case["methods"]):
         ns[f"m{i}"] = param.depends(*deps, watch=True)(mk(i))
+    if oi and oi["position"] == "last":
+        ns["_build"] = param.depends("kind", watch=True, on_init=True)(_build)
     Top = type("Top", (param.Parameterized,), ns)
     nbase = len(case["methods"])
     sub_deps = case.get("sub_method") or ["c.y"]
@@ -271,7 +296,18 @@ def execute(case):
             # method alone (and without the census of detached objects); otherwise it ends here
             if len(tops) > 1 or roc is None:
                 break
+            # Which attribute was replaced (None: a plain assignment on a leaf / mid, nothing had to be re-bound).  A dependency
+            # *through* the replaced object refreshes, before its method is called, the watchers of every method with a
+            # dependency under the same root: when the method that raised has such a dependency, all the methods are bound to
+            # the attached objects again and the whole object is judged as before.  (A method that merely watches the replaced
+            # attribute itself - 'a', 'a.param' for a.b - has no such refresh: the others were not re-bound if it ran first.)
+            root_ = {"attach_mid": "a.", "attach_c": "c.", "attach_leaf": "a.b."}.get(k)     # dependencies *through* the replaced object
+            rdeps = dict(tmethods[0])[roc[0]]
+            if root_ is None or any(d.startswith(root_) for d in rdeps):
+                res.label("judged_on_after_a_raising_method:all_methods")
+                continue
             judged_only = roc[0]
+            res.label("judged_on_after_a_raising_method:that_method_only")
             continue
         for pi, top in enumerate(tops):
             if boomed:
